@@ -86,6 +86,7 @@ def run(prog, chk):
     chk.rule(frontends, prog, chk)
     chk.rule(utf8_boundary, prog, chk)
     chk.rule(infinite_iterators, prog, chk, reach)
+    chk.rule(lookup_amplification, prog, chk)
     chk.rule(retry_amplification, prog, chk)
     chk.rule(retry_novelty, prog, chk)
     chk.rule(retry_baseline_after_attempt, prog, chk)
@@ -426,6 +427,49 @@ def infinite_iterators(prog, chk, reach):
                     if o[0] == "call" and o[1] in inf and Callee(o[2]["fn"]).decl_path == "std::iter::IntoIterator::into_iter":
                         chk.bad("A4.endless-iterator", f"{b.short}:for-loop", b.where(h), f"{b.short}: a `for` loop runs directly over an endless iterator")
     chk.floor("A4.endless-iterator", n_src, 4, "call producing an endless iterator (attr_split_cycle / cycle)")
+
+
+def lookup_amplification(prog, chk):
+    """Recursive descent does work proportional to its token stream because every token is consumed once.  A function
+    on the expression cycle that starts a *fresh* token stream (a variable's value, tokenised again) and evaluates it
+    breaks that bound: a value that mentions a variable k times costs k evaluations of that variable, nested d deep
+    k^d - unless results are remembered (a map consulted before evaluating) or the work is budgeted (a counter that is
+    advanced and compared with a limit, other than the nesting depth).  The nesting guard bounds d (MAX_EXPR_DEPTH),
+    not the product."""
+    n = 0
+    for b in prog.bodies.values():
+        if b.unit != "svgdx-lib" or not b.path.startswith("svgdx::expression::"):
+            continue
+        fresh = b.call_sites(lambda c: c.path.endswith("EvalState::<'a>::new") or c.path.endswith("EvalState::new"))
+        evals = b.call_sites(lambda c: c.path in ("svgdx::expression::expr_list", "svgdx::expression::expr"))
+        if not fresh or not evals:
+            continue
+        # ... on the cycle: reachable from what it calls
+        reach = prog.reachable_from([prog.body(c.path) for (_bb, _t, c) in evals if prog.maybe_body(c.path) is not None])
+        if b.id not in reach and not any(x.root == b.id and x.id in reach for x in prog.bodies.values()):
+            continue
+        n += 1
+        scope = [b] + list(prog.closures_of(b))
+        memo = any(bd.call_sites(lambda c: ("HashMap" in c.path or "BTreeMap" in c.path) and c.path.split("::")[-1] in ("get", "get_mut", "entry", "contains_key", "insert") and "ExprValue" in (c.inst or "")) for bd in scope)
+        budget = False
+        for bd in scope:
+            for x, i, st in bd.all_stmts():
+                rv = st.get("rv") or {}
+                if rv.get("k") == "binop" and rv.get("op") in ("Gt", "Ge", "Lt", "Le"):
+                    for side in (rv["a"], rv["b"]):
+                        ch = bd.chase(side)
+                        if ch[0] == "place" and ch[1][1] and str(ch[1][1][-1]) != ".depth" and R.increments_of(bd, ch[1]):
+                            budget = True  # a counter advanced here and compared with a limit: the work is budgeted
+        key = f"{b.short}:re-evaluation"
+        chk.ob(
+            memo or budget,
+            "A4.lookup-amplification",
+            key,
+            b.where(fresh[0][0], fresh[0][1].get("line")),
+            f"{b.short} evaluates a fresh token stream on the expression cycle, but results are remembered / the work is budgeted",
+            f"{b.short} tokenises and evaluates a variable's value again at every reference, on the recursive expression cycle, with neither a memo nor a work budget: a value that mentions a variable twice doubles the work at every level of nesting - `a1=\"$a2+$a2\" a2=\"$a3+$a3\" ..` costs 2^N evaluations for N attributes (only the depth of the chain is limited, by MAX_EXPR_DEPTH = 100)",
+        )
+    chk.floor("A4.lookup-amplification", n, 1, "fresh evaluation of a variable value on the expression cycle")
 
 
 def retry_amplification(prog, chk):
